@@ -126,6 +126,21 @@ aggregate-traversal-count CTE starts at depth 1 and filters `depth >= lo` -/
 def generalDepths (lo hi : Nat) (W : Nat → List α) : List α := ((List.range (hi + 1)).filter (fun d => decide (lo ≤ d))).flatMap W
 def loweredDepths (lo hi : Nat) (W : Nat → List α) : List α := ((List.range (hi + 1)).filter (fun d => decide (1 ≤ d) && decide (lo ≤ d))).flatMap W
 
+-- ------------------------------------------------------------------ limit pushdown: which tail WHERE the LIMIT may be moved below
+
+/-- `shortestPathLimitPushdownTransparentWhere` (translate/projection.go) as analysed — the helper behind `TailShape.whereTransparent`, the last
+conjunct of `tailGuard`: a tail SELECT WITHOUT a WHERE is transparent; WITH one, the source frame must exist, must be a shortest-path harness
+frame whose own WHERE is transparent (both are what `shortestPathEndpointAliases` / `shortestPathSourceWhereTransparent` decide), and every
+conjunct of the tail WHERE must be the endpoint inequality the harness already applies. There is NO other `return true`: in particular a
+plain traversal frame with a filter left in the tail SELECT (e.g. `not exists (…)` from a quantifier over relationships(p)) is NOT
+transparent — a LIMIT pushed below such a filter cuts rows the filter would have kept (`limit_below_filter_loses_rows`) -/
+def transparentWhereFacts : List String := [
+  "if where == nil", "return true",
+  "sourceCTE := findCTE(currentPart.Model, sourceFrame)", "if sourceCTE == nil", "return false",
+  "if !hasEndpointAliases || !shortestPathSourceWhereTransparent(sourceCTE.Query, rootAlias, terminalAlias)", "return false",
+  "if !isEndpointInequality(term, sourceFrame, rootAlias, terminalAlias)", "return false",
+  "return true"]
+
 -- ------------------------------------------------------------------ collect-id membership: what counts as the alias' declaration
 
 /-- `isProjectionAliasDeclaration` (translate/collect_id_membership.go) as analysed: a variable occurrence is the DECLARATION of the alias
